@@ -96,6 +96,15 @@ def check(ctx):
         rge = [e for e in x.events if e.kind == "int_call" and e.data["callee"] == reg.qualname]
         if len(cfe) == 1 and len(rge) == 1 and isinstance(rge[0].data["args"]["guess"], TupV) and isinstance(cfe[0].data["args"].get("f"), CALLABLES):
             n = len(rge[0].data["args"]["guess"].items)
+            # ... of the first guess curve_fit receives: the regularised list, or a part of it (head, *rest = guess)
+            p0_ = cfe[0].data["args"].get("p0")
+            if isinstance(p0_, TupV):
+                n = len(p0_.items)
+            elif isinstance(p0_, Num):
+                at_ = x.single_atom(p0_.nf)
+                if at_ is not None and at_[0] == "fn" and at_[1] == "items":
+                    lo_, hi_ = nf.as_int(nf.unkey(at_[2][1])), nf.as_int(nf.unkey(at_[2][2]))
+                    n = n - (lo_ or 0) + (hi_ or 0)
             args = [Num(nf.sym("@x"))] + [Num(nf.sym(f"@p{k}")) for k in range(n)]
             x.log("marker", cfe[0].node, name="model evaluation")
             return x.call(cfe[0].data["args"]["f"], args, {}, cfe[0].node, None)
